@@ -103,6 +103,8 @@ func c12Scenarios(thorough bool) []c12Scenario {
 		{name: "numeric literal over mixed kinds 2x2", src: "n == 7 or `7` in m", threads: 2, ops: 2, data: kinds, bound: -1},
 		{name: "zero-fraction literal over mixed kinds 2x2", src: "n == 7.0 or `7.0` in m", threads: 2, ops: 2, data: kinds, bound: -1},
 		{name: "zero-fraction literal on integers first use 2x1", src: "n == 7.0", threads: 2, ops: 1, data: []interface{}{kinds[0]}, bound: -1},
+		{name: "matches over byte-slice values 2x1 first use", src: "s matches `a+`", threads: 2, ops: 1, data: []interface{}{map[string]interface{}{"s": []byte("aaa")}}, bound: -1},
+		{name: "matches over byte-slice and string values 2x2", src: "s matches `a+` or s not matches `z`", threads: 2, ops: 2, data: []interface{}{map[string]interface{}{"s": []byte("aaa")}, d1, map[string]interface{}{"s": MyBytes("zz")}}, bound: -1},
 		{name: "numeric literal over mixed kinds 3x1", src: "n != 7 and m contains `7`", threads: 3, ops: 1, data: kinds, bound: -1},
 		// quantifier bindings next to an unknown value (an option list with spare capacity that every call extends)
 		{name: "quantifier with unknown value 2x2", src: "any l as x { x == `a` or zz == 1 }", opts: Cfg{Tag: "bexpr", Unknown: one}, threads: 2, ops: 2, data: mixed, bound: -1},
@@ -124,6 +126,9 @@ func c12Scenarios(thorough bool) []c12Scenario {
 	return sc
 }
 
+// MyBytes: a named byte-slice type (convertible to []byte, not identical to it)
+type MyBytes []byte
+
 type c12Call struct {
 	class int
 	sig   string
@@ -134,7 +139,9 @@ var c12Unique int64
 // newInstance creates a fresh evaluator / filter. Every regular-expression literal is made textually
 // unique per instance (an alternative that never matches is appended) so that process-global state keyed
 // by the literal is cold for every instance, not only for the first one of the process.
-func (sc *c12Scenario) newInstance() (*bexpr.Evaluator, *bexpr.Filter, error) { return sc.newInstanceFor(0) }
+func (sc *c12Scenario) newInstance() (*bexpr.Evaluator, *bexpr.Filter, error) {
+	return sc.newInstanceFor(0)
+}
 
 func (sc *c12Scenario) newInstanceFor(i int) (*bexpr.Evaluator, *bexpr.Filter, error) {
 	n := atomic.AddInt64(&c12Unique, 1)
@@ -370,13 +377,19 @@ func c12RunScenarios(c *eng.Ctx, scs []c12Scenario) {
 }
 
 // c12Finalize runs the free-running -race complement (built by run.sh from the same scenario table).
-func c12Finalize(tier string, r *eng.Result) {
+func c12Finalize(tier string, r *eng.Result) { raceFinalize(tier, r, "C12", "") }
+
+// c11Finalize: the concurrent-creation scenarios once more, free-running under the race detector (the parser's own state is not
+// instrumented for the schedule explorer; a counter or option shared between parsers shows up here).
+func c11Finalize(tier string, r *eng.Result) { raceFinalize(tier, r, "C11", "budget") }
+
+func raceFinalize(tier string, r *eng.Result, prop, only string) {
 	bin := os.Getenv("VERIF_RACECOMP")
 	if bin == "" {
 		r.Notes = append(r.Notes, "free-running -race complement not run (VERIF_RACECOMP unset)")
 		return
 	}
-	cmd := exec.Command(bin, tier)
+	cmd := exec.Command(bin, tier, only)
 	cmd.Env = append(os.Environ(), "GORACE=halt_on_error=0 exitcode=66")
 	out, err := cmd.CombinedOutput()
 	text := string(out)
@@ -390,12 +403,12 @@ func c12Finalize(tier string, r *eng.Result) {
 			rep = rep[:2500]
 		}
 		r.ViolationCount++
-		r.Violations = append(r.Violations, eng.Violation{Property: "C12", Tier: tier, Kind: "race-detector-report", Key: "free-running -race complement: " + firstRaceLine(rep), Detail: rep})
+		r.Violations = append(r.Violations, eng.Violation{Property: prop, Tier: tier, Kind: "race-detector-report", Key: "free-running -race complement: " + firstRaceLine(rep), Detail: rep})
 		return
 	}
 	if strings.Contains(text, "RESULT-MISMATCH") {
 		r.ViolationCount++
-		r.Violations = append(r.Violations, eng.Violation{Property: "C12", Tier: tier, Kind: "free-running-result-differs", Key: "free-running complement: " + firstLine(text[strings.Index(text, "RESULT-MISMATCH"):])})
+		r.Violations = append(r.Violations, eng.Violation{Property: prop, Tier: tier, Kind: "free-running-result-differs", Key: "free-running complement: " + firstLine(text[strings.Index(text, "RESULT-MISMATCH"):])})
 		return
 	}
 	if err != nil {
@@ -424,13 +437,21 @@ func lastLine(s string) string {
 
 // RaceComplement runs the scenario bodies free-running (real goroutines behind a start barrier, fresh
 // instance per round). It is meant to be built with -race and WITHOUT the rewriting overlay.
-func RaceComplement(tier string) string {
+func RaceComplement(tier string) string { return RaceComplementOf(tier, "") }
+
+// RaceComplementOf: only == "budget" restricts the run to the concurrent-creation scenarios (C11's share of the table).
+func RaceComplementOf(tier, only string) string {
 	rounds := 150
 	if tier == "thorough" {
 		rounds = 1500
 	}
 	calls := 0
-	for _, sc := range c12Scenarios(tier == "thorough") {
+	scs := c12Scenarios(tier == "thorough")
+	if only == "budget" {
+		scs = c12BudgetScenarios()
+		rounds *= 4
+	}
+	for _, sc := range scs {
 		n := sc.threads * sc.ops
 		want := make([]c12Call, n)
 		for i := range want {
@@ -493,5 +514,5 @@ func RaceComplement(tier string) string {
 			}
 		}
 	}
-	return fmt.Sprintf("%d scenarios x %d rounds, %d concurrent calls, no race reported", len(c12Scenarios(tier == "thorough")), rounds, calls)
+	return fmt.Sprintf("%d scenarios x %d rounds, %d concurrent calls, no race reported", len(scs), rounds, calls)
 }
